@@ -141,21 +141,27 @@ Definition cog_tidx (mm : list meta) : list (Z * Z * Z * Z) :=
 
 (** * 3. _tifffile.py *)
 
-(** yaxis_from_shape(shape, gbox): [gshape] is [gbox.shape] when a GeoBox is given *)
+(** yaxis_from_shape(shape, gbox, yaxis): [gshape] is [gbox.shape] when a GeoBox
+    is given; [yaxis] is the Y axis position when the caller knows it
+    (save_cog_with_dask passes the DataArray's ydim since fix e835224) *)
 Definition zz_eq (a b : Z * Z) : bool := (fst a =? fst b) && (snd a =? snd b).
 
-Definition yaxis_from_shape (shape : list Z) (gshape : option (Z * Z)) : res (axis * Z) :=
+Definition yaxis_from_shape (shape : list Z) (gshape : option (Z * Z)) (yaxis : option Z) : res (axis * Z) :=
   match shape with
   | [_; _] => Ok (YX, 0)
   | [d0; d1; d2] =>
-      if (d2 =? 3) || (d2 =? 4) then Ok (YXS, 0)
-      else match gshape with
-           | None => Ok (SYX, 1)
-           | Some g =>
-               if zz_eq g (d0, d1) then Ok (YXS, 0)
-               else if zz_eq g (d1, d2) then Ok (SYX, 1)
-               else Err EValue
-           end
+      match yaxis with
+      | Some ya => if ya =? 0 then Ok (YXS, 0) else Ok (SYX, 1)
+      | None =>
+          if (d2 =? 3) || (d2 =? 4) then Ok (YXS, 0)
+          else match gshape with
+               | None => Ok (SYX, 1)
+               | Some g =>
+                   if zz_eq g (d0, d1) then Ok (YXS, 0)
+                   else if zz_eq g (d1, d2) then Ok (SYX, 1)
+                   else Err EValue
+               end
+      end
   | _ => Err EValue
   end.
 
@@ -184,8 +190,9 @@ Definition make_levels (bs : list blk) (im_shape : Z * Z) : res (list level * Z)
   end.
 
 (** _make_empty_cog: array shape (2 or 3 dims) -> CogMeta.flatten() *)
-Definition make_metas (shape : list Z) (gshape : option (Z * Z)) (bs : list blk) : res (list meta) :=
-  '(ax, yaxis) <- yaxis_from_shape shape gshape ;;
+Definition make_metas (shape : list Z) (gshape : option (Z * Z)) (yaxis : option Z) (bs : list blk)
+  : res (list meta) :=
+  '(ax, yaxis) <- yaxis_from_shape shape gshape yaxis ;;
   let im := match shape, ax with
             | [h; w], _ => (h, w)
             | [h; w; _], YXS => (h, w)
